@@ -18,7 +18,7 @@ import (
 
 func init() {
 	seqChecks["c20"] = &seqCheck{run: runC20, replay: replayC20,
-		rule: "every sequence of <=4 (5 thorough) events over {change a=1, change a=2 b=x, change delete a, (untyped models: change c=null, change delete c,) add v@0, add v@1, add v@5, remove 0, remove 5, create, delete} x package {middleware, resbadger} x type {model, collection} x value type {untyped, struct} x default {none, set} x index set {none, one}; after every event the get response and Value() are compared with the fold, listener old values / deleted data with the previous stored value, and at the end the database is closed, reopened and compared again; distinct = distinct (configuration, sequence, outcome vector)"}
+		rule: "every sequence of <=4 (5 thorough) events over {change a=1, change a=2 b=x, change delete a, (untyped models: change c=null, change delete c; with a default: change delete d, a property of the default,) add v@0, add v@1, add v@5, remove 0, remove 5, create, delete} x package {middleware, resbadger} x type {model, collection} x value type {untyped, struct} x default {none, set} x index set {none, one}; after every event the get response and Value() are compared with the fold, listener old values / deleted data with the previous stored value, and at the end the database is closed, reopened and compared again; distinct = distinct (configuration, sequence, outcome vector)"}
 }
 
 type c20Cfg struct {
@@ -87,7 +87,7 @@ func c20Fold(cfg c20Cfg, s c20State, ev string) (n c20State, applied bool, old s
 		return o
 	}
 	switch ev {
-	case "chA1", "chA2Bx", "chDelA", "chCnull", "chDelC":
+	case "chA1", "chA2Bx", "chDelA", "chCnull", "chDelC", "chDelD":
 		if !cur.exists {
 			return s, false, "", false
 		}
@@ -121,6 +121,11 @@ func c20Fold(cfg c20Cfg, s c20State, ev string) (n c20State, applied bool, old s
 			if ov, ok := m["c"]; ok {
 				rev["c"] = ov
 				delete(m, "c")
+			}
+		case "chDelD":
+			if ov, ok := m["d"]; ok {
+				rev["d"] = ov
+				delete(m, "d")
 			}
 		}
 		if len(rev) == 0 {
@@ -177,11 +182,16 @@ type c20Obs struct {
 
 func c20Events(cfg c20Cfg) []string {
 	if cfg.Type == "model" {
+		evs := append([]string{}, c20ModelEvents...)
+		if cfg.Default {
+			// deleting a property that only the default value has
+			evs = append(evs, "chDelD")
+		}
 		if !cfg.Typed {
 			// untyped models may hold a property whose value is JSON null
-			return append(append([]string{}, c20ModelEvents...), "chCnull", "chDelC")
+			evs = append(evs, "chCnull", "chDelC")
 		}
-		return c20ModelEvents
+		return evs
 	}
 	return c20CollEvents
 }
@@ -376,6 +386,8 @@ func c20Run(db **badger.DB, reopen func(), cfg c20Cfg, seq []string, rname strin
 					r.ChangeEvent(map[string]interface{}{"c": nil})
 				case "chDelC":
 					r.ChangeEvent(map[string]interface{}{"c": res.DeleteAction})
+				case "chDelD":
+					r.ChangeEvent(map[string]interface{}{"d": res.DeleteAction})
 				case "add0":
 					r.AddEvent("v", 0)
 				case "add1":
@@ -416,7 +428,7 @@ func c20Run(db **badger.DB, reopen func(), cfg c20Cfg, seq []string, rname strin
 				}
 				sig = append(sig, "rejected")
 			} else {
-				name := map[string]string{"chA1": "change", "chA2Bx": "change", "chDelA": "change", "chCnull": "change", "chDelC": "change", "add0": "add", "add1": "add", "add5": "add", "rem0": "remove", "rem5": "remove", "create": "create", "delete": "delete"}[ev]
+				name := map[string]string{"chA1": "change", "chA2Bx": "change", "chDelA": "change", "chCnull": "change", "chDelC": "change", "chDelD": "change", "add0": "add", "add1": "add", "add5": "add", "rem0": "remove", "rem5": "remove", "create": "create", "delete": "delete"}[ev]
 				wantL := "listener " + name
 				if name == "change" {
 					wantL += " old=" + norm(old)
